@@ -508,6 +508,15 @@ func (h *htxEngine) extract(fn *ssa.Function) map[ssa.Instruction]htxEvent {
 				if len(x.Call.Args) < 2 {
 					return
 				}
+				// append(buf[:mark], ...) is a roll-back to the recorded length followed by the append; the roll-back
+				// event sits on the slice instruction, which precedes the append in its block
+				if sl, ok := x.Call.Args[0].(*ssa.Slice); ok && h.buf(sl.X) {
+					if sl.Low == nil && sl.High != nil && lenVals[sl.High] && sl.Block() == x.Block() {
+						out[sl] = htxEvent{kind: evRollback, lenKey: sl.High, instr: sl}
+					} else if sl.Low != nil || sl.High != nil {
+						h.addViol("HTX-L", fn, in.Pos(), "the output buffer is re-sliced in a way that is not a roll-back to a recorded length")
+					}
+				}
 				k, s, d := h.classifyOperand(x.Call.Args[1])
 				ev := htxEvent{kind: k, s: s, desc: d, instr: in}
 				if k == evEsc {
